@@ -190,7 +190,8 @@ class HTTPChannel(wasyncore.dispatcher):
             self.current_outbuf_count += num_bytes
             self.total_outbufs_len += num_bytes
             self.sent_continue = True
-            self._flush_some()
+            # may run in a task thread (see service): never close from here
+            self._flush_exception(self._flush_some, do_close=False)
 
     def received(self, data):
         """
